@@ -142,13 +142,25 @@ pub fn c13_commands(cx: &mut Ctx) {
                         cx.probe("c13_number_beyond_64_bits");
                     }
                     let shape = if matches!(s.outcome, StepOutcome::Ready(_)) { well_formed(&types) } else { None };
+                    if too_long_number && pooler_error(&s.msgs).is_some() {
+                        // left to a server, and none of the requested role could take it
+                        cx.probe("c13_long_number_without_server");
+                        continue;
+                    }
+                    if too_long_number && forwarded.iter().any(|(ci, ui, _)| h.backend_conns[*ci].units[*ui].out_bytes == s.recv) && matches!(s.outcome, StepOutcome::Ready(_)) {
+                        // left to a server and relayed byte for byte (the same text may have been sent
+                        // by another client at the same time: any unit that matches will do)
+                        cx.probe("c13_long_number_left_to_server");
+                        continue;
+                    }
                     if too_long_number && !forwarded.is_empty() {
                         // a number that is not a bigint: handing it to the server (which rejects
                         // it) is as good as refusing it; but then it must be relayed properly
                         let (ci, ui, _) = forwarded[0];
                         let u = &h.backend_conns[*ci].units[*ui];
                         if u.out_bytes != s.recv || !matches!(s.outcome, StepOutcome::Ready(_)) {
-                            cx.v("C13", "command_unanswered", "C13/command_with_long_number_not_answered", s.done_seq, format!("client {} step {}: {:?} ended {:?}", c.id, s.idx, q, s.outcome));
+                            let bt: String = proto::split_all(&u.out_bytes).0.iter().map(|m| m.ty as char).collect();
+                            cx.v("C13", "command_unanswered", "C13/command_with_long_number_not_answered", s.done_seq, format!("client {} step {}: {:?} ended {:?}; backend replied {:?} ({} bytes), client received {:?} ({} bytes)", c.id, s.idx, q, s.outcome, bt, u.out_bytes.len(), String::from_utf8_lossy(&types), s.recv.len()));
                         }
                         continue;
                     }
